@@ -13,7 +13,7 @@ def _is_parserish(lib, f, depth=6):
     if f["crate"] in PARSER_CRATES:
         return True
     full = f.get("full", "") + " ".join(f.get("args", []))
-    if any(re.search(r"(^|[^A-Za-z_:])" + c + "::", full) for c in PARSER_CRATES if c != "toml") or re.search(r"(^|[^A-Za-z_:])toml::(de|Deserializer|Value|ser)", full):
+    if any(re.search(r"(^|[^A-Za-z_:])" + c + "::", full) for c in PARSER_CRATES if c != "toml") or re.search(r"(^|[^A-Za-z_:])toml::((de|ser)::|(Deserializer|Value)\b)", full):
         return True
     b = lib.by_id.get(f.get("resolved") or f["def"]) or lib.by_id.get(f["def"])
     if not b:
@@ -337,31 +337,37 @@ def r09_2(ctx):
                 ctx.ob(f"select:{v}", ok, site(det, bi), f"Format::{s['rv']['variant']} is chosen only on the `true` edge of its own trial" if ok else f"Format::{s['rv']['variant']} can be chosen without its trial answering true")
 
 
+def conversion_supers(lib):
+    """Supergraphs of the Handle -> Input conversions (`impl From/TryFrom<Handle> for Input`), with the
+    same-crate helpers they delegate to inlined."""
+    conv = [b for b in lib.bodies if b.raw.get("impl_trait") in ("std::convert::From", "std::convert::TryFrom") and "Input<" in b.local_ty(0) and b.raw["def_kind"] == "AssocFn"]
+    return [(b, Super(lib, b, depth=3)) for b in conv]
+
+
 @rule("R09.4", 3, "the translator sees prefix then source: chain(captured-prefix cursor, original source); fully buffered input hands over the whole vector", ["C09"])
 def r09_4(ctx):
     lib = ctx.lib
     cap, guard = _capture_adts(lib)
-    conv = [b for b in lib.bodies if b.raw.get("impl_trait") == "std::convert::From" and b.local_ty(0).startswith("input::Input") or (b.raw.get("impl_trait") == "std::convert::From" and "Input<" in b.local_ty(0))]
-    conv = [b for b in conv if any((fn_of(t) or {}).get("def") == "std::io::Read::chain" for _, t in b.calls())]
-    ctx.need(len(conv) == 1, f"Handle -> Input conversion with a Read::chain call not found ({len(conv)})")
-    b = conv[0]
-    for bb, t in b.calls():
+    convs = [(b, sup) for b, sup in conversion_supers(lib) if any((fn_of(t) or {}).get("def") == "std::io::Read::chain" for _, _, t in sup.calls())]
+    ctx.need(len(convs) == 1, f"Handle -> Input conversion with a Read::chain call not found ({len(convs)})")
+    b, sup = convs[0]
+    for n, cb, t in sup.calls():
         f = fn_of(t) or {}
         if f.get("def") == "std::io::Read::chain":
             a = f["args"]
             ok = len(a) >= 2 and "Cursor" in a[0] and "Cursor" not in a[1]
-            ctx.ob("chain:types", ok, site(b, bb), f"chain::<{a}>: receiver holds the prefix cursor, argument is the source" if ok else f"chain operands swapped: {a}")
-            r = trace(b, t["args"][0], passthrough_extra=("FusedReader", "::new"))
-            s2 = trace(b, t["args"][1])
+            ctx.ob("chain:types", ok, sup.site(n), f"chain::<{a}>: receiver holds the prefix cursor, argument is the source" if ok else f"chain operands swapped: {a}")
+            r = strace(sup, n, t["args"][0], extra=("FusedReader", "::new"))
+            s2 = strace(sup, n, t["args"][1])
             rf = [st[1] for st in r.steps if st[0] == "field"]
             sf = [st[1] for st in s2.steps if st[0] == "field"]
             same = bool(r.origin and s2.origin and r.origin[0] == "call" and s2.origin[0] == "call" and r.origin[2] is s2.origin[2])
             ok2 = same and rf[:1] == ["0"] and sf[:1] == ["1"]
-            ctx.ob("chain:operands", ok2, site(b, bb), f"receiver = into_inner().{rf[:1]}, argument = into_inner().{sf[:1]} of the same capture reader")
-    names = [(fn_of(t) or {}).get("name") for _, t in b.calls()]
+            ctx.ob("chain:operands", ok2, sup.site(n), f"receiver = into_inner().{rf[:1]}, argument = into_inner().{sf[:1]} of the same capture reader")
+    names = [(fn_of(t) or {}).get("name") for n, cb, t in sup.calls() if cb.raw.get("impl_self_adt") != cap]
     whole = "into_inner" in names and not any(n in ("position", "remaining_slice", "split_at", "split_off", "drain") for n in names)
     ctx.ob("buffered:whole-vector", whole, site(b), "fully buffered input is handed over with Cursor::into_inner (all captured bytes)" if whole else f"captured bytes are sliced by position: {names}")
-    via_guard = any((fn_of(t) or {}).get("impl_self_adt") == guard for _, t in b.calls())
+    via_guard = any((fn_of(t) or {}).get("impl_self_adt") == guard for _, _, t in sup.calls())
     ctx.ob("conversion-rewinds", via_guard, site(b), "conversion obtains the reader through the rewinding accessor")
 
 
@@ -402,7 +408,7 @@ def r09_5(ctx):
         ctx.ob("message-on-none-arm", ok, site(b, bi), "the error is built only when detection returned None" if ok else "the 'unable to detect' error is not tied to detection returning None")
 
 
-@rule("R09.6", 4, "the capture reader marks end-of-input only on evidence of EOF from a successful source read (never on a short read or an error edge)", ["C09", "C12"])
+@rule("R09.6", 4, "the capture reader marks end-of-input only on evidence of EOF from a successful source read (never on a short read or an error edge)", ["C09", "C12", "C03", "C02", "C10"])
 def r09_6(ctx):
     lib = ctx.lib
     cap, guard = _capture_adts(lib)
